@@ -33,13 +33,21 @@ type c08Chain struct {
 	First c08Term   `json:"first"`
 	Ops   []string  `json:"ops"`
 	Terms []c08Term `json:"terms"`
-	Break []bool    `json:"break"` // newline before operator i
+	Break []bool    `json:"break"`           // newline before operator i
+	Space []int     `json:"space,omitempty"` // spacing of operator i: 0 "a - b", 1 "a -b", 2 "a- b", 3 "a-b" (arithmetic only)
+}
+
+func c08AtomFo(n int) string {
+	if n >= 100 {
+		return fmt.Sprint(n) // an integer literal
+	}
+	return fmt.Sprintf("a%d", n)
 }
 
 func (t *c08Term) fo() string {
 	switch t.Kind {
 	case "atom":
-		return fmt.Sprintf("a%d", t.Atom)
+		return c08AtomFo(t.Atom)
 	case "app":
 		s := fmt.Sprintf("a%d", t.Atom)
 		for _, a := range t.Args {
@@ -58,7 +66,20 @@ func (c *c08Chain) fo(ind string) string {
 		if ind != "" && i < len(c.Break) && c.Break[i] {
 			s += "\n" + ind + o + " " + c.Terms[i].fo()
 		} else {
-			s += " " + o + " " + c.Terms[i].fo()
+			sp := 0
+			if i < len(c.Space) {
+				sp = c.Space[i]
+			}
+			switch sp {
+			case 1:
+				s += " " + o + c.Terms[i].fo()
+			case 2:
+				s += o + " " + c.Terms[i].fo()
+			case 3:
+				s += o + c.Terms[i].fo()
+			default:
+				s += " " + o + " " + c.Terms[i].fo()
+			}
 		}
 	}
 	return s
@@ -130,11 +151,11 @@ func (c *c08Chain) atoms() int {
 	var tm func(t *c08Term)
 	var ch func(c *c08Chain)
 	tm = func(t *c08Term) {
-		if t.Atom+1 > n {
+		if t.Atom < 100 && t.Atom+1 > n {
 			n = t.Atom + 1
 		}
 		for _, a := range t.Args {
-			if a+1 > n {
+			if a < 100 && a+1 > n {
 				n = a + 1
 			}
 		}
@@ -182,6 +203,8 @@ func c08Canon(e ast.Expr) string {
 			return "i" + x.Name[1:]
 		}
 		return x.Name
+	case *ast.BasicLit:
+		return "i" + x.Value
 	case *ast.BinaryExpr:
 		op := x.Op.String()
 		return "(" + op + " " + c08Canon(x.X) + " " + c08Canon(x.Y) + ")"
@@ -310,6 +333,43 @@ func runC08(c *Ctx) {
 			ch.Ops = append(ch.Ops, "|>")
 			ch.Terms = append(ch.Terms, c08Term{Kind: "atom", Atom: next})
 			ch.Break = append(ch.Break, rng.Chance(1, 2))
+			next++
+		}
+		cases = append(cases, c08Case{Chain: ch})
+	}
+	// arithmetic chains with integer literals and every spacing of the operator ("a -1 + b" is a
+	// binary minus in fc: spacing is not part of the grouping rule)
+	arith := []string{"+", "-", "*", "/"}
+	for i := 0; i < c.Pick(600, 6000); i++ {
+		n := 1 + rng.Intn(4)
+		ch := &c08Chain{First: c08Term{Kind: "atom", Atom: 0}}
+		next := 1
+		for j := 0; j < n; j++ {
+			ch.Ops = append(ch.Ops, Choose(rng, arith))
+			at := next
+			if rng.Bool() {
+				at = 100 + rng.Intn(9) + 1 // literal 101..109
+			} else {
+				next++
+			}
+			ch.Terms = append(ch.Terms, c08Term{Kind: "atom", Atom: at})
+			ch.Break = append(ch.Break, false)
+			ch.Space = append(ch.Space, rng.Intn(4))
+		}
+		cases = append(cases, c08Case{Chain: ch})
+	}
+	// a pipe FOLLOWED by arithmetic: |> is the loosest operator on both sides: a |> f + g is a |> (f + g)
+	for i := 0; i < c.Pick(300, 3000); i++ {
+		ch := &c08Chain{First: c08Term{Kind: "atom", Atom: 0}}
+		next := 1
+		for j := 0; j < 1+rng.Intn(3); j++ {
+			op := Choose(rng, arith)
+			if j == 0 || rng.Chance(1, 3) {
+				op = "|>"
+			}
+			ch.Ops = append(ch.Ops, op)
+			ch.Terms = append(ch.Terms, c08Term{Kind: "atom", Atom: next})
+			ch.Break = append(ch.Break, false)
 			next++
 		}
 		cases = append(cases, c08Case{Chain: ch})
